@@ -197,7 +197,7 @@ def d2(ctx, rid):
             n += 1
             root = prog.fns[f.id].root
             key = 'exclusive-append|%s' % root
-            pushes = [p for p in f.calls if p.name == 'push' and any('IndexTrait' in t or 'IndexStruct' in t for t in prog.resolve(p))]
+            pushes = prims.index_push_sites(prog, f)
             if not pushes:
                 ctx.bad(rid, key, c.where(), 'record append without an index push in the same body')
                 continue
